@@ -119,6 +119,9 @@ package auparse
 //@ func (auparse.fieldMap).saddr
 //@ requires fm != nil
 //@ modifies mapOf(fm), alloc
+//@ ensures[C12] !old("saddr" in fm) ==> !isNil(result0)
+//@ witness[C12] isNil(result0) ==> forall k string :: k in saddrData ==> k in fm && fm[k].value == saddrData[k]
+//@ loop 0 invariant[C12] forall k string :: visited(k) ==> k in fm && fm[k].value == saddrData[k]
 //@ func (auparse.fieldMap).parseSELinuxContext
 //@ requires fm != nil
 //@ modifies mapOf(fm), alloc
